@@ -7,7 +7,7 @@ From Coq Require Import String.
 From Boltons Require Import Lib.Prelude Lib.C06_Text Spec.C06_Spec Model.C06_Model Gen.C06_Gen Gen.C06_Src
   Proofs.C06_SrcEq
   Proofs.C06_Codec Proofs.C06_Utf8 Proofs.C06_Quote Proofs.C06_Lists Proofs.C06_Round Proofs.C06_Legal
-  Proofs.C06_NoAuth Proofs.C06_Shape Proofs.C06_Parsed Proofs.C06_QuoteMin Proofs.C06_Parts Proofs.C06_RoundMin Proofs.C06_Total
+  Proofs.C06_Ports Proofs.C06_NoAuth Proofs.C06_Shape Proofs.C06_Parsed Proofs.C06_QuoteMin Proofs.C06_Parts Proofs.C06_RoundMin Proofs.C06_Total
   Proofs.C06_GenOk.
 Open Scope N_scope.
 
@@ -170,8 +170,13 @@ Example C06_ex_roundtrip :
 Proof. vm_compute. split; reflexivity. Qed.
 
 (* port_wf is a decidable condition on the port (absent, or its decimal rendering is read back by
-   int()); Proofs/C06_Ports.v proves  forall p, 0 <= p < 65536 -> port_wf (Some p) = true  by exhaustive
-   vm_compute (kept outside this file's dependencies: coqchk, which has no VM, needs > 30 min for it) *)
+   int()); every port 0..65535 satisfies it - proved structurally (str(n) has at most as many digits as
+   n has bits, all ASCII digits; int() strips nothing, finds no sign or underscore; N.of_uint inverts
+   N.to_uint), so it is re-checked by coqchk like everything else *)
+Theorem C06_ports_wf : forall p, (0 <= p < 65536)%Z -> port_wf (Some p) = true.
+Proof. exact port_wf_range. Qed.
+Print Assumptions C06_ports_wf.
+
 Example C06_ex_ports :
   forallb (fun p => port_wf (Some p)) [0; 1; 21; 22; 80; 443; 8080; 9418; 65535; 99999]%Z = true /\ port_wf None = true.
 Proof. vm_compute. split; reflexivity. Qed.
